@@ -431,6 +431,7 @@ impl Check for C02 {
             depth,
             OPS.len()
         );
+        ctx.rule.push_str("; plus comparisons over the boundary grid and between literals, values nested 1..24, 32, 40 and 64 containers deep and printed, `this` declared as a parameter / pattern item / collector / local / loop variable and called plainly and through an object, programs whose index, key or bound reads or writes the container it is applied to");
         let mut g_cyclic = false;
         let stats = bfs(
             ctx,
